@@ -370,7 +370,7 @@ def getBH_level2(
             for gr_ind in range(lg):  # put into dedicated positions in B
                 B[group["order"][gr_ind]] = B_group[gr_ind]
 
-        _verif_point("computed", objects=obj_list)
+        _verif_point("computed", objects=obj_list, B=B)
         # reshape output ----------------------------------------------------------------
         # rearrange B when there is at least one Collection with more than one source
         if num_of_src_list > num_of_sources:
@@ -383,7 +383,7 @@ def getBH_level2(
                         B, np.s_[src_ind + 1 : src_ind + col_len], 0
                     )  # delete remaining part of slice
 
-        _verif_point("reduced", objects=obj_list)
+        _verif_point("reduced", objects=obj_list, B=B)
         # apply sensor rotations (after summation over collections to reduce rot.apply operations)
         for sens_ind, sens in enumerate(sensors):  # cycle through all sensors
             pix_slice = slice(pix_inds[sens_ind], pix_inds[sens_ind + 1])
@@ -411,7 +411,7 @@ def getBH_level2(
             if sens.handedness == "left":
                 B[..., pix_slice, 0] *= -1
 
-        _verif_point("rotated", objects=obj_list)
+        _verif_point("rotated", objects=obj_list, B=B)
         # rearrange sensor-pixel shape
         if pix_all_same:
             B = B.reshape((num_of_sources, max_path_len, num_of_sensors, *pix_shapes[0]))
@@ -423,7 +423,7 @@ def getBH_level2(
             Bagg = [np.expand_dims(pixel_agg_func(b, axis=2), axis=2) for b in Bsplit]
             B = np.concatenate(Bagg, axis=2)
 
-        _verif_point("aggregated", objects=obj_list)
+        _verif_point("aggregated", objects=obj_list, B=B)
     finally:
         # reset tiled objects
         for obj, (pos0, ori0) in zip(reset_obj, reset_obj_paths):
